@@ -413,7 +413,7 @@ def check_prim(prop, mode, tier, quick_cases, thorough_cases, required, assumpti
 
 
 def check_c16(tier):
-    return check_prim("C16", "c16", tier, 20000, 300000,
+    return check_prim("C16", "c16", tier, 60000, 400000,
                       ["wrap_cases", "octahedral_q_2_8", "octahedral_q_9_20", "octahedral_q_21_30",
                        "wrap_tuples_enumerated", "octahedral_pairs_enumerated"],
                       ["exhaustive only for the enumerated sub-spaces named in the rule; 32-bit ranges and q >= 6/7 are sampled",
@@ -421,7 +421,7 @@ def check_c16(tier):
 
 
 def check_c17(tier):
-    return check_prim("C17", "c17", tier, 4000, 60000,
+    return check_prim("C17", "c17", tier, 12000, 80000,
                       ["op_scalar", "op_bytes", "op_varint", "op_bit_region", "coder_0", "coder_1", "coder_2", "coder_3",
                        "coder_4", "coder_bulk_run", "varint_values_enumerated_uint16", "varint_values_enumerated_int16"],
                       ["bit-mode regions respect the caller contract sum(nbits) <= required_bits",
@@ -679,7 +679,7 @@ def check_c06(tier):
     t0 = time.time()
     exes = ensure_built(["c06_history", "c06_history_plain"])
     res = Result()
-    run_shards(res, "C06", "c06_history", exes["c06_history"], "c06", tier, 16, 400 if tier == "quick" else 5000)
+    run_shards(res, "C06", "c06_history", exes["c06_history"], "c06", tier, 16, 1200 if tier == "quick" else 6000)
     # cross-process part: the same fixed-seed case list under different address-space layouts / allocator fills
     ncases = 300 if tier == "quick" else 3000
     variants = [("default", [], {}), ("no_aslr", ["setarch", os.uname().machine, "-R"], {}),
